@@ -34,7 +34,6 @@ class EventPublisherImpl : public EventPublisher {
 
   private:
     std::vector<EventSubscriber*> subscriber_vec_;
-    std::vector<EventSubscriber*> tmp_vec_;
 };
 
 
